@@ -1051,4 +1051,84 @@ theorem mem_violations_single (keys dd : List String) (pre : Registry) (file : S
   · rintro ⟨p, hp, hx⟩
     exact ⟨_, ⟨p, hp, rfl⟩, hx⟩
 
+/-! ### end to end -/
+
+/-- **What `Parser.parse()` reports for a file's own content is exactly the specification's `violations`.**
+    With the file's declarations registered on top of `st.reg` (no duplicate), references at pairwise distinct
+    positions and nothing bound yet, `finishFile`
+    * succeeds,
+    * ends with the registry `progRegistry st.reg [file]` the specification reads the one-file program against,
+    * binds every reference to what lexical scoping denotes in that registry, and
+    * reports a diagnostic (class, rule, file, position) iff it is a violation of the specification. -/
+theorem finishFile_eq_violations (cfg : Cfg) (file : APath) (contents : List Content) (st : PState) (reg : Registry)
+    (hres : st.resolved = [])
+    (hreg : registerAll st.reg (walkContents { file := showPath file, keys := cfg.keys, defaultDeriving := cfg.defaultDeriving } [] contents).regs = .ok reg)
+    (hnd : ((walkContents { file := showPath file, keys := cfg.keys, defaultDeriving := cfg.defaultDeriving } [] contents).refs.map
+              (fun r => (r.file, r.pos))).Nodup) :
+    let c := walkContents { file := showPath file, keys := cfg.keys, defaultDeriving := cfg.defaultDeriving } [] contents
+    ∃ m ds, finishFile cfg file contents {} st
+        = .ok ({ units := c.units, refs := c.refs, errors := ds }, { st with reg := reg, resolved := m })
+      ∧ reg = progRegistry st.reg [{ file := showPath file, contents := contents }]
+      ∧ (∀ r ∈ c.refs, m.get r.file r.pos = lexicalLookup reg r.ns r.name)
+      ∧ ∀ x, x ∈ ds ↔ x ∈ violations cfg.keys cfg.defaultDeriving st.reg [{ file := showPath file, contents := contents }] := by
+  intro c
+  obtain ⟨m, ds, hfin, hbind, hds⟩ := finishFile_spec cfg file contents st reg hres hreg hnd
+  have hregeq := registerAll_eq_progRegistry
+    { file := showPath file, keys := cfg.keys, defaultDeriving := cfg.defaultDeriving } st.reg reg contents hreg
+  refine ⟨m, ds, hfin, hregeq, hbind, fun x => ?_⟩
+  rw [hds x, mem_violations_single]
+  have h := reported_walkContents { file := showPath file, keys := cfg.keys, defaultDeriving := cfg.defaultDeriving }
+    reg m [] contents hbind x
+  rw [← hregeq]
+  exact h
+
+/-- `finishFile_eq_violations` with the registration hypothesis replaced by what it means (`file_registers_iff`):
+    the qualified names of the file's declarations are pairwise distinct and not yet taken -/
+theorem finishFile_eq_violations_of_fresh (cfg : Cfg) (file : APath) (contents : List Content) (st : PState)
+    (hres : st.resolved = [])
+    (hkeys : ((declsOfContents [] contents).map (fun x => declKey x.1 x.2)).Nodup)
+    (hfresh : ∀ x ∈ declsOfContents [] contents, declKey x.1 x.2 ∉ st.reg.map (·.key))
+    (hnd : ((walkContents { file := showPath file, keys := cfg.keys, defaultDeriving := cfg.defaultDeriving } [] contents).refs.map
+              (fun r => (r.file, r.pos))).Nodup) :
+    let c := walkContents { file := showPath file, keys := cfg.keys, defaultDeriving := cfg.defaultDeriving } [] contents
+    let reg := progRegistry st.reg [{ file := showPath file, contents := contents }]
+    ∃ m ds, finishFile cfg file contents {} st
+        = .ok ({ units := c.units, refs := c.refs, errors := ds }, { st with reg := reg, resolved := m })
+      ∧ (∀ r ∈ c.refs, m.get r.file r.pos = lexicalLookup reg r.ns r.name)
+      ∧ ∀ x, x ∈ ds ↔ x ∈ violations cfg.keys cfg.defaultDeriving st.reg [{ file := showPath file, contents := contents }] := by
+  intro c reg
+  obtain ⟨reg', hreg⟩ := (file_registers_iff
+    { file := showPath file, keys := cfg.keys, defaultDeriving := cfg.defaultDeriving } st.reg contents).mpr ⟨hkeys, hfresh⟩
+  obtain ⟨m, ds, hfin, hregeq, hbind, hds⟩ := finishFile_eq_violations cfg file contents st reg' hres hreg hnd
+  have hr : reg' = reg := hregeq
+  subst hr
+  exact ⟨m, ds, hfin, hbind, hds⟩
+
+/-- **Accepted iff no violation**: under the hypotheses of `finishFile_eq_violations`, the file's own content is
+    accepted — `finishFile` returns with an empty diagnostics list — iff the specification finds no violation. -/
+theorem accepted_iff_no_violation (cfg : Cfg) (file : APath) (contents : List Content) (st : PState) (reg : Registry)
+    (hres : st.resolved = [])
+    (hreg : registerAll st.reg (walkContents { file := showPath file, keys := cfg.keys, defaultDeriving := cfg.defaultDeriving } [] contents).regs = .ok reg)
+    (hnd : ((walkContents { file := showPath file, keys := cfg.keys, defaultDeriving := cfg.defaultDeriving } [] contents).refs.map
+              (fun r => (r.file, r.pos))).Nodup) :
+    (∃ r st', finishFile cfg file contents {} st = .ok (r, st') ∧ r.errors = [])
+      ↔ violations cfg.keys cfg.defaultDeriving st.reg [{ file := showPath file, contents := contents }] = [] := by
+  obtain ⟨m, ds, hfin, _, _, hds⟩ := finishFile_eq_violations cfg file contents st reg hres hreg hnd
+  constructor
+  · rintro ⟨r, st', hr, he⟩
+    rw [hfin] at hr
+    cases hr
+    simp only at he
+    subst he
+    apply List.eq_nil_iff_forall_not_mem.mpr
+    intro x hx
+    exact absurd ((hds x).mpr hx) (by simp)
+  · intro hv
+    refine ⟨_, _, hfin, ?_⟩
+    apply List.eq_nil_iff_forall_not_mem.mpr
+    intro x hx
+    have := (hds x).mp hx
+    rw [hv] at this
+    exact absurd this (by simp)
+
 end Pydjinni.Front
